@@ -8,9 +8,10 @@ import CrabProofs.Lemmas.FunctorUfRefl
 Model `Crab.Dom.Fct.VP` (`CrabModel/Dom/Functors/ValuePartitioning.lean`).  `operator<=` after repo
 commits eb25fa6 (no join of the right partitions) is sound for every pairing case; `is_bottom` /
 `is_top` mean "every partition is"; the canonical bottom is ONE bottom partition (335d5b6).
-Reflexivity of `<=` needs separated intervals, which `update_partitions()` does not guarantee
-(`C04.vpart_leq_refl_counterexample`, same scenario and replay line as the meet defect of
-`Props/C03Functors2.lean`).
+Reflexivity of `<=` needs separated intervals: `update_partitions()` guarantees them after repo
+commit 8f4c9c7 (`C04.vpart_leq_refl_after_update`); the counterexample is a value the pinned tree
+computed (`VP.updatePartsOld`; scenario and replay line in the header of `Props/C03Functors2.lean`),
+and the statement over all values with `VP.Inv` stays `_partial` (see that header).
 -/
 open Crab Crab.Dom Crab.Dom.Fct
 
@@ -45,7 +46,14 @@ theorem C04.vpart_leq_refl_partial (hr : D.LeqRefl) {a : VP D} (ha : VP.Inv a)
           · exact absurd (by simp [hk]) hn
           · exact VP.leqSame_refl hr _ hk
 
+/-- every value is `<=` itself right after `update_partitions()` (assignment to the partitioning
+    variable, constraint on it, partition start) -/
+theorem C04.vpart_leq_refl_after_update (hr : D.LeqRefl) {a : VP D} (ha : VP.Inv a) (hv : a.var ≠ none) :
+    VP.leq (VP.updateParts a) (VP.updateParts a) = true :=
+  C04.vpart_leq_refl_partial hr (VP.updateParts_inv ha) (Or.inr (VP.updateParts_sep hv))
+
 open VPartEx in
+/-- pinned-tree value (old merge loop, fixed by 8f4c9c7) -/
 theorem C04.vpart_leq_refl_counterexample : ¬ C04.vpart_leq_refl_Statement := by
   intro h
   have h1 := h V3 (St V3) constVDom
@@ -56,7 +64,7 @@ theorem C04.vpart_leq_refl_counterexample : ¬ C04.vpart_leq_refl_Statement := b
       | some m =>
         show allV (fun v => (m v).isNone || decide (m v = m v)) = true
         apply (allV_iff _).2; intro v; simp)
-    (xy W0) (VP.assignOp_inv _ _ (VP.inv_of_some (x := 0) rfl (by simp [W0])))
+    (xyOld W0) inv_xyOld_W0
   revert h1
   decide
 
